@@ -6,7 +6,13 @@ From V.C13 Require Import Properties.
 Check (C13_at_most_one :
   forall (cf : cfg) (evs : list ev) (r : N),
     (terms r (snd (run cf (init_pst, init_env) evs)) <= 1)%nat).
-Check (C13_exactly_one_settled_partial :
+Check (C13_exactly_one :
+  forall (cf : cfg) (evs : list ev) (r : N),
+    let res := run cf (init_pst, init_env) evs in
+    quiescent (fst (fst res)) ->
+    In (OSent r) (snd res) ->
+    terms r (snd res) = 1%nat \/ In r (cancel_reqs evs)).
+Check (C13_exactly_one_settled :
   forall (cf : cfg) (evs : list ev) (r : N),
     let res := run cf (init_pst, init_env) evs in
     settled (fst (fst res)) ->
@@ -18,6 +24,25 @@ Check (C13_inbound_bound :
     | Some m => inbound_load (fst (fst (run cf (init_pst, init_env) evs))) <= m
     | None => True
     end).
+Check (C13_steps_flatten :
+  forall (cf : cfg) (evs : list ev),
+    snd (run cf (init_pst, init_env) evs) = outs_of (run_steps cf (init_pst, init_env) evs)).
+Check (C13_payload :
+  forall (cf : cfg) (evs : list ev) pre e o tg post (rid len tag : N),
+    run_steps cf (init_pst, init_env) evs = pre ++ (e, o, tg) :: post ->
+    In (OResp rid len tag) o ->
+    exists k c,
+      e = ERespond k len tag /\ tg = Some c /\
+      In (OBind c rid) (outs_of pre) /\
+      (forall rid', In (OBind c rid') (outs_of (run_steps cf (init_pst, init_env) evs)) -> rid' = rid) /\
+      (forall c', In (OBind c' rid) (outs_of (run_steps cf (init_pst, init_env) evs)) -> c' = c)).
+Check (C13_responder_once :
+  forall (cf : cfg) (evs : list ev),
+    let steps := run_steps cf (init_pst, init_env) evs in
+    NoDup (req_chans steps) /\
+    forall e o tg irid p len tag,
+      In (e, o, tg) steps -> In (OReq irid p len tag) o ->
+      exists k c, e = EInReq k len tag /\ tg = Some c /\ o = [OReq irid p len tag]).
 Check (C13_unrepaired_refuted :
   exists s o,
     (let '(s1, o1) := h_send_unrepaired init_pst 0 true 3 10 false true 0 in
